@@ -959,7 +959,7 @@ fn hops_from(v: &Value) -> Vec<HOp> {
 /// One fresh server; connections are opened (each sends one call and stays open) and closed as the history
 /// says. After every step min(open, max) of the open connections must have been answered - a connection is
 /// answered only once a worker serves it, and stays in service until it is closed - and never more than max.
-fn run_history(initial: usize, max: usize, ops: &[HOp], patience: Duration) -> HRes {
+fn run_history(initial: usize, max: usize, ops: &[HOp], patience: Duration, settle: Duration) -> HRes {
     PASS.store(true, Ordering::SeqCst);
     set_callback(None);
     let scratch = Scratch::new("c14h");
@@ -994,6 +994,11 @@ fn run_history(initial: usize, max: usize, ops: &[HOp], patience: Duration) -> H
                         closed_served = true;
                     }
                     drop(p);
+                    // with a settle time the worker has finished with the closed connection before the next
+                    // step; without one the next connection races with it - both orders are histories
+                    if !settle.is_zero() {
+                        std::thread::sleep(settle);
+                    }
                 }
             }
         }
@@ -1037,18 +1042,19 @@ fn run_history(initial: usize, max: usize, ops: &[HOp], patience: Duration) -> H
 
 const HISTORY_CONFIGS: [(usize, usize); 7] = [(1, 2), (1, 3), (2, 3), (1, 4), (2, 4), (3, 4), (1, 1)];
 
-fn history_case(initial: usize, max: usize, ops: &[HOp]) -> Value {
-    json!({"initial": initial, "max": max, "history": hops_json(ops)})
+fn history_case(initial: usize, max: usize, ops: &[HOp], settle_ms: u64) -> Value {
+    json!({"initial": initial, "max": max, "history": hops_json(ops), "settle_ms_after_close": settle_ms})
 }
 
 /// Judge one history; a stall counts only if it repeats within three further runs of the same history.
-fn judge_history(ctx: &mut Ctx, initial: usize, max: usize, ops: &[HOp]) -> CaseResult {
+fn judge_history(ctx: &mut Ctx, initial: usize, max: usize, ops: &[HOp], settle_ms: u64) -> CaseResult {
+    let settle = Duration::from_millis(settle_ms);
     let patience = Duration::from_secs(4);
-    match run_history(initial, max, ops, patience) {
+    match run_history(initial, max, ops, patience, settle) {
         HRes::Held { closed_served_then_refilled } => {
             ctx.case(if closed_served_then_refilled { Some(hash64(&(initial, max, hops_json(ops).to_string(), "history"))) } else { None });
             ctx.class("listen:open-close-history");
-            ctx.sample(|| history_case(initial, max, ops));
+            ctx.sample(|| history_case(initial, max, ops, settle_ms));
             Ok(())
         }
         HRes::Bound(n) => Err(Fail::new(
@@ -1057,7 +1063,7 @@ fn judge_history(ctx: &mut Ctx, initial: usize, max: usize, ops: &[HOp]) -> Case
         )),
         HRes::Stalled { step, answered, expected } => {
             for _ in 0..3 {
-                if let HRes::Stalled { step: s2, answered: a2, expected: e2 } = run_history(initial, max, ops, patience) {
+                if let HRes::Stalled { step: s2, answered: a2, expected: e2 } = run_history(initial, max, ops, patience, settle) {
                     return Err(Fail::new(
                         "listen/stranded-connection",
                         format!(
@@ -1082,21 +1088,24 @@ fn listen_histories(ctx: &mut Ctx, cases: u32) {
             ops.push(HOp::Open);
         }
         ops.extend([HOp::Close(0), HOp::Open, HOp::Close(1), HOp::Close(1), HOp::Open, HOp::Open]);
-        if let Err(f) = judge_history(ctx, initial, max, &ops) {
-            ctx.violation(&f.key, &f.what, "c14-history", history_case(initial, max, &ops));
-            return;
+        for settle_ms in [40u64, 0] {
+            if let Err(f) = judge_history(ctx, initial, max, &ops, settle_ms) {
+                ctx.violation(&f.key, &f.what, "c14-history", history_case(initial, max, &ops, settle_ms));
+                return;
+            }
         }
     }
     let strat = (0usize..HISTORY_CONFIGS.len(), prop::collection::vec(any::<u16>(), 3..28));
     let r = pt::check_with(ctx, "c14-history", cases, 10, 90_000, strat, |ctx, (cfg, ch)| {
         let (initial, max) = HISTORY_CONFIGS[*cfg];
         let ops = history_ops(max, ch);
-        judge_history(ctx, initial, max, &ops)
+        judge_history(ctx, initial, max, &ops, if ch[0] & 1 == 1 { 40 } else { 0 })
     });
     if let Some(((cfg, ch), f)) = r {
         let (initial, max) = HISTORY_CONFIGS[cfg];
         let ops = history_ops(max, &ch);
-        ctx.violation(&f.key, &f.what, "c14-history", history_case(initial, max, &ops));
+        let settle_ms = if ch[0] & 1 == 1 { 40 } else { 0 };
+        ctx.violation(&f.key, &f.what, "c14-history", history_case(initial, max, &ops, settle_ms));
     }
 }
 
@@ -1107,8 +1116,9 @@ fn replay(ctx: &mut Ctx, v: &Value) {
     if cj.get("history").is_some() {
         let (initial, max) = (cj["initial"].as_u64().unwrap_or(1) as usize, cj["max"].as_u64().unwrap_or(2) as usize);
         let ops = hops_from(&cj["history"]);
-        if let Err(f) = judge_history(ctx, initial, max, &ops) {
-            ctx.violation(&f.key, &f.what, "c14-history", history_case(initial, max, &ops));
+        let settle_ms = cj["settle_ms_after_close"].as_u64().unwrap_or(0);
+        if let Err(f) = judge_history(ctx, initial, max, &ops, settle_ms) {
+            ctx.violation(&f.key, &f.what, "c14-history", history_case(initial, max, &ops, settle_ms));
         }
         return;
     }
